@@ -60,6 +60,7 @@ Succ(st) ==
     LET p == st.p  ar == st.args IN
     CASE st.a = "SuccCreate" -> SuccCreate(ar.kind, p, {ar.kps[i] : i \in 1..Len(ar.kps)})
       [] st.a = "SuccJoin" -> SuccJoin(p, ar.succ, ar.how)
+      [] st.a = "SuccForge" -> SuccForge(ar.kind, p, ar.like, {ar.kps[i] : i \in 1..Len(ar.kps)})
       [] OTHER -> FALSE
 
 Obs(st) ==
@@ -72,7 +73,7 @@ Obs(st) ==
       [] OTHER -> FALSE
 
 Directed(st) ==
-    IF st.a \in {"SuccCreate", "SuccJoin"} THEN Succ(st) /\ UNCHANGED obs
+    IF st.a \in {"SuccCreate", "SuccJoin", "SuccForge"} THEN Succ(st) /\ UNCHANGED obs
     ELSE IF st.p = "observer" THEN Obs(st) /\ UNCHANGED succ
     ELSE IF st.a = "GenKeyPackage" THEN Member(st) /\ UNCHANGED obs /\ succ' = succ
     ELSE Member(st) /\ UNCHANGED <<obs, succ>>
